@@ -26,6 +26,14 @@ _terms = {}
 
 
 def T(*t):
+    if len(t) == 2 and t[0] == 'c' and t[1].__class__ is float:
+        # 0 == 0.0 in python: keep float and integer constants apart in the intern table
+        k = ('c', t[1], 'f')
+        r = _terms.get(k)
+        if r is None:
+            _terms[k] = t
+            r = t
+        return r
     r = _terms.get(t)
     if r is None:
         _terms[t] = t
@@ -741,6 +749,7 @@ class Interp:
         self.ext_names = {}
         self.effects = set()
         self.budget = None
+        self.keep_fact = None       # rule-specific predicate: facts never garbage-collected
         self.cast_events = None     # list to collect value-changing integer casts
         self.skip_bodies = set()    # workspace functions treated as opaque (rule-specific runs)
         self.partitions = {}        # fn name -> {variable names}: trace partitioning directives
@@ -1634,7 +1643,7 @@ class InterpOps:
         lo = max(r[0], b[0])
         return (lo, min(r[1], b[1]), (r[2] | b[2]) if lo >= 0 else 0)
 
-    def refine_term(self, st, t, lo, hi, zeros=0, depth=0):
+    def refine_term(self, st, t, lo, hi, zeros=0, depth=0, keep_nan=False):
         """intersect term t with [lo,hi]; returns False when empty"""
         if t is None:
             return True
@@ -1644,11 +1653,19 @@ class InterpOps:
         if cur is None:
             cur = (lo, hi, 0)
         isf = isinstance(cur[2], bool)
+        if not isf and (lo.__class__ is float or hi.__class__ is float):
+            # an integer term compared with a float bound
+            lo = cur[0] if lo == -INF else (math.ceil(lo) if lo.__class__ is float else lo)
+            hi = cur[1] if hi == INF else (math.floor(hi) if hi.__class__ is float else hi)
         nlo, nhi = max(cur[0], lo), min(cur[1], hi)
         if nlo > nhi:
+            if isf and keep_nan and cur[2]:
+                st.rf[t] = (INF, -INF, True)      # only NaN remains
+                return True
             return False
         if isf:
-            st.rf[t] = (nlo, nhi, False)
+            # a comparison that holds excludes NaN; the negation of one does not
+            st.rf[t] = (nlo, nhi, bool(cur[2]) and keep_nan)
         else:
             z = (cur[2] | zeros) if nlo >= 0 else 0
             if nlo >= 0 and z:
@@ -1702,11 +1719,13 @@ class InterpOps:
                 return self.assume(st, t[1], False) and self.assume(st, t[2], False)
             return self._bool_rf(st, t, truth)
         if op in CMPS:
+            neg = False
             if not truth:
                 op = CMP_NEG[op]
+                neg = op in ('Lt', 'Le', 'Gt', 'Ge')
             if not self._bool_rf(st, t, truth):
                 return False
-            return self.assume_cmp(st, op, t[1], t[2])
+            return self.assume_cmp(st, op, t[1], t[2], negated=neg)
         if op == 'inrange':
             # lo <= x <= hi (or < hi): true gives both comparisons, false only the flag
             if not self._bool_rf(st, t, truth):
@@ -1724,10 +1743,13 @@ class InterpOps:
         st.rf[t] = (v, v, 0)
         return True
 
-    def assume_cmp(self, st, op, ta, tb):
+    def assume_cmp(self, st, op, ta, tb, negated=False):
+        """negated: `op` is the complement of a comparison found false (for floats the operands
+        may then still be NaN)"""
         A = self.ival(st, ta)
         B = self.ival(st, tb)
-        st.facts = st.facts | {(op, ta, tb)}
+        if not (negated and ((A is not None and isinstance(A[2], bool) and A[2]) or (B is not None and isinstance(B[2], bool) and B[2]))):
+            st.facts = st.facts | {(op, ta, tb)}
         if A is None and B is None:
             return True
         if A is None:
@@ -1739,6 +1761,11 @@ class InterpOps:
             # floats: comparison true implies neither is NaN
             al, ah, bl, bh = A[0], A[1], B[0], B[1]
             if op == 'Ne':
+                return True
+            kn = negated
+            if kn and ((A[2] is True and isinstance(A[2], bool)) or (B[2] is True and isinstance(B[2], bool))):
+                # a NaN operand makes the original comparison false whatever the other value is:
+                # nothing can be learnt about the bounds
                 return True
             if op in ('Lt', 'Le'):
                 ok = self.refine_term(st, ta, -INF, bh) and self.refine_term(st, tb, al, INF)
@@ -2769,8 +2796,9 @@ class Engine(Interp, InterpOps, CallMixin, ZoneMixin):
             if e not in eused and not (e[0] == 'e' and alive(('o', e[1]))):
                 del st.erf[e]
         if st.facts:
+            keep = self.keep_fact
             nf = frozenset(f for f in st.facts
-                           if all(not isinstance(x, tuple) or alive(x) for x in f[1:]))
+                           if (keep is not None and keep(f)) or all(not isinstance(x, tuple) or alive(x) for x in f[1:]))
             if len(nf) != len(st.facts):
                 st.facts = nf
 
